@@ -223,7 +223,7 @@ unsigned int GlobalGraph::unlinkInNodeStructure_(const GlobalGraph::Node& nodeA,
   // Backwards
   nodeStructureType::iterator nodeBRow = nodeStructure_.find(nodeB);
   map<GlobalGraph::Node, GlobalGraph::Edge>::iterator foundBackwardsRelation = nodeBRow->second.second.find(nodeA);
-  if (foundBackwardsRelation == nodeBRow->second.first.end())
+  if (foundBackwardsRelation == nodeBRow->second.second.end())
     throw Exception("GlobalGraph::unlinkInNodeStructure_ : no edge to erase " + TextTools::toString(nodeB) + "<-" + TextTools::toString(nodeA));
 
   nodeBRow->second.second.erase(foundBackwardsRelation);
